@@ -666,3 +666,33 @@ package server
 //@   at-return [new-hook-registered] err == nil && d.updated ==> (*s.hooks)[keyOf(s.hooks, hook)] == hook
 //@   at-return [new-hook-out] err == nil && d.updated && (hook.Fence.detect == nil || hook.Fence.detect["outside"]) ==> (*s.hooksOut)[keyOf(s.hooksOut, hook)] == hook
 //@   at-return [new-hook-expiry] err == nil && d.updated && hook.expires != 0 ==> (*s.hookExpires)[keyOf(s.hookExpires, hook)] == hook
+
+// ---- NEARBY radius and reported distance (C13, the part that is not geometry) -----------------------
+// The collection hands over the R-tree's best-first sequence with the distance the R-tree computed for each element
+// (Collection.Nearby, C11). cmdNearby: with a positive radius every element handed to the scan writer lies within the
+// radius, the walk stops only at an element beyond it (so, the distances being non-decreasing, nothing within the radius
+// is left out other than by LIMIT/cursor), and DISTANCE is that same distance.
+//@ ghost scratch lastPushed int
+//@ ghost scratch lastDist float64
+//@ func scanWriter.pushObject
+//@   frame-by-effects
+//@ func scanWriter.writeFoot
+//@   frame-by-effects
+//@ ghost scratch nbTree map[ref]int
+//@ ghost macro nbSeq(sw, sargs) = fromOff(rtNearby(nbTree), sw)
+//@ ghost macro nbDist(sw, k) = rtDist(nbTree, k + offOf(sw))
+//@ func Server.cmdNearby
+//@   frame-by-effects
+//@   uses rt.nearby.sorted
+//@   requires s != nil && msg != nil && len(msg.Args) > 0
+//@   modifies steps, perCall
+// the KNN/radius walk (loop 2 = the closure handed to Collection.Nearby, verified in place over the sequence)
+//@   set-at-call local.iterStep#2 lastPushed = idx2
+//@   at-call local.iterStep#2 [within-radius] maxDist > 0 ==> nbDist(sw, idx2) <= maxDist
+//@   at-call local.iterStep#2 [distance-reported] arg1 == ite(sargs.distance, nbDist(sw, idx2), 0)
+//@   at-call local.iterStep#2 [object-in-order] arg0 == nbSeq(sw, sargs)[idx2]
+//@   env-at-call Collection.Nearby sargs.obj != nil
+//@   env-at-call Collection.Intersects sargs.obj != nil
+//@   set-at-call Collection.Nearby#1 nbTree = sw.col.spatial
+//@   loop 2 invariant [all-within-radius] maxDist > 0 ==> forall(j, offOf(sw), idx2 + offOf(sw), rtDist(nbTree, j) <= maxDist)
+//@   loop 2 on-stop [stops-only-beyond-radius] (maxDist > 0 && dist > maxDist) || lastPushed == idx2
